@@ -680,7 +680,7 @@ theorem blocksLoopL {root : Nat} (parent : Nat) (hroot : parent = root) :
       exact ih bl3 s3 c3 hri3 hpad3 hst3 hemp3
 
 /-- **the block phase ends normally for EVERY source** (or runs out of fuel, which `run_noLoop` excludes) -/
-theorem runL : (∃ s, runT pts src = .ok s ∧ NodesOK src s) ∨ runT pts src = .error .loop ∨ runT pts src = .error e := by
+theorem runLK : (∃ s, runT pts src = .ok s ∧ NodesOK src s ∧ KidsOK s) ∨ runT pts src = .error .loop ∨ runT pts src = .error e := by
   unfold runT parseBlocksT
   have hinit : StableLT src 0 { (initSt src) with pc := { (initSt src).pc with opened := [] } } := by
     have hnd0 : ∀ i, nd ({ (initSt src) with pc := { (initSt src).pc with opened := [] } } : St) i =
@@ -714,7 +714,7 @@ theorem runL : (∃ s, runT pts src = .ok s ∧ NodesOK src s) ∨ runT pts src 
   simp only [bind, StateT.bind, modPc, source, Except.bind, pure, StateT.pure, Except.pure]
   rcases this with (⟨_, s', e1, hs'⟩ | e1) | e1
   · left
-    refine ⟨s', ?_, hs'.nodes⟩
+    refine ⟨s', ?_, hs'.nodes, hs'.ls.kids⟩
     have e' : blocksLoopT pts 0 (linesFuel (initSt src).r.source) []
         { r := (initSt src).r, nodes := (initSt src).nodes, pc := { (initSt src).pc with opened := [] } } = .ok ((), s') := e1
     rw [e']; rfl
@@ -727,6 +727,11 @@ theorem runL : (∃ s, runT pts src = .ok s ∧ NodesOK src s) ∨ runT pts src 
         { r := (initSt src).r, nodes := (initSt src).nodes, pc := { (initSt src).pc with opened := [] } } = .error e := e1
     rw [e']; rfl
 
+
+theorem runL : (∃ s, runT pts src = .ok s ∧ NodesOK src s) ∨ runT pts src = .error .loop ∨ runT pts src = .error e := by
+  rcases runLK lsp hpts hNB with ⟨s, h1, h2, _⟩ | h
+  · exact .inl ⟨s, h1, h2⟩
+  · exact .inr h
 
 end tp
 
